@@ -137,7 +137,7 @@ def cases(c):
     nb = 1 if quick else 16
     for b in range(nb):
         r2 = c.rng('mem', b)
-        tri = hostile_triples(r2, 60 if quick else 200, 512 if quick else 4096)
+        tri = hostile_triples(r2, 60 if quick else 400, 512 if quick else 4096)
         if not quick and b % 4 == 0:
             tri.append((16384, 7, 4.0))
         out.append({'lane': 'asan-driver', 'batch': b, 'triples': tri, 'directed': True})
@@ -150,7 +150,7 @@ def cases(c):
                    {'N': 31, 'NW': 2, 'k': None, 'via': 'pmtm', 'NFFT': None, 'method': 'eigen'}]
         out.append({'lane': 'asan-inproc', 'batch': b, 'cases': inproc, 'directed': True})
         if not quick:
-            out.append({'lane': 'valgrind', 'batch': b, 'triples': tri[:120], 'directed': True})
+            out.append({'lane': 'valgrind', 'batch': b, 'triples': tri[:200], 'directed': True})
     for N in (range(8, 41, 1) if quick else range(8, 65)):
         for NW in NWS:
             if NW >= N / 2.0:
@@ -160,7 +160,7 @@ def cases(c):
                 ks = [gen.pick(rng, ks)]
             for k in ks:
                 out.append({'lane': 'behaviour', 'N': N, 'NW': NW, 'k': k, 'directed': N in (8, 9)})
-    for i in range(40 if quick else 1500):
+    for i in range(40 if quick else 6000):
         N = int(rng.integers(41, (1025 if quick else 4097) if i % 5 == 0 else 300))
         NW = float(gen.pick(rng, NWS))
         out.append({'lane': 'behaviour', 'N': N, 'NW': NW, 'k': gen.pick(rng, [1, int(rng.integers(1, int(2 * NW) + 1)), None]), 'i': i})
